@@ -11,14 +11,14 @@
 (*    rank[k]   position of k in `order` (1 = most recent), 0 = absent     *)
 (*    val[k], sz[k]   as in LRU.tla for present keys, 0 for absent ones    *)
 (*    size, cap, evict, sized   as in LRU.tla                              *)
-(* with the same operators (Front, Without, Trimmed, AfterPut, Charge) and *)
-(* one action per method, as Do(a): Put (set, setx), SetNX, Get, Del,      *)
-(* Clear, SetCap, Same (peek, exist, mut, the getters: UNCHANGED).  Left   *)
-(* out: `last`, Reply (return values), the action properties ReadOnly /    *)
-(* Reorders / StrictLRU (TLC's business).  The eviction loop NDrop ("while *)
-(* size > cap drop the tail") is replaced by its closed form: the loop     *)
-(* stops at the longest prefix whose running total fits, so k survives iff *)
-(* some prefix that contains k fits.                                       *)
+(* with the same operators (Front, Without, Trimmed, Charge; AfterPut case *)
+(* by case) and one action per method, as Do(a): Put (set, setx), SetNX,   *)
+(* Get, Del, Clear, SetCap, Same (peek, exist, the getters: UNCHANGED).    *)
+(* Left out: `last`, Reply (return values), the action properties          *)
+(* ReadOnly / Reorders / StrictLRU (TLC's business).  The eviction loop    *)
+(* NDrop ("while size > cap drop the tail") is replaced by its closed      *)
+(* form: charges are >= 0, so the loop stops at the longest prefix whose   *)
+(* running total fits, and k survives iff the prefix ending at k fits.     *)
 (* LRU_IndRef.tla is the refinement mapping; TLC checks on the constants   *)
 (* of LRU_MC.cfg that every step of LRU!Next is a step of Next here and    *)
 (* that IndInv holds in every reachable state of LRU!Spec; LRU_Ind_MC.cfg  *)
@@ -103,19 +103,23 @@ Install(t) ==
   /\ rank' = t.rank /\ val' = t.val /\ sz' = t.sz /\ size' = t.size
   /\ evict' = evict + t.n
 
+(* AfterPut of LRU.tla, case by case.  The cases are disjuncts of the actions rather than an   *)
+(* IF between state records: Apalache then treats them as separate symbolic transitions and   *)
+(* need not merge records of functions (3 times faster).                                      *)
 \* @type: (Int, Int, Int) => $st;
-AfterPut(k, v, s) ==
-  IF Has(k)
-  THEN IF sized
-       THEN Trimmed(Front(rank, k), Ext(val, k, v), Ext(sz, k, s), size + s - sz[k], cap)
-       ELSE [rank |-> Front(rank, k), val |-> Ext(val, k, v), sz |-> sz, size |-> size, n |-> 0]
-  ELSE Trimmed(Front(rank, k), Ext(val, k, v), Ext(sz, k, Charge(s)), size + Charge(s), cap)
+PutNew(k, v, s) == Trimmed(Front(rank, k), Ext(val, k, v), Ext(sz, k, Charge(s)), size + Charge(s), cap)
+\* @type: (Int, Int, Int) => $st;
+PutOldSized(k, v, s) == Trimmed(Front(rank, k), Ext(val, k, v), Ext(sz, k, s), size + s - sz[k], cap)
 
-Put(k, v, s) == Install(AfterPut(k, v, s)) /\ UNCHANGED <<cap, sized>>
+Put(k, v, s) ==
+  \/ ~Has(k) /\ Install(PutNew(k, v, s)) /\ UNCHANGED <<cap, sized>>
+  \/ Has(k) /\ sized /\ Install(PutOldSized(k, v, s)) /\ UNCHANGED <<cap, sized>>
+  \/ /\ Has(k) /\ ~sized      \* tiny: update in place, refresh recency, no capacity check
+     /\ rank' = Front(rank, k) /\ val' = Ext(val, k, v)
+     /\ UNCHANGED <<sz, size, evict, cap, sized>>
 SetNX(k, v, s) ==
-  IF Has(k)
-  THEN rank' = Front(rank, k) /\ UNCHANGED <<val, sz, size, cap, evict, sized>>
-  ELSE Install(AfterPut(k, v, s)) /\ UNCHANGED <<cap, sized>>
+  \/ Has(k) /\ rank' = Front(rank, k) /\ UNCHANGED <<val, sz, size, cap, evict, sized>>
+  \/ ~Has(k) /\ Install(PutNew(k, v, s)) /\ UNCHANGED <<cap, sized>>
 Get(k) ==
   /\ rank' = IF Has(k) THEN Front(rank, k) ELSE rank
   /\ UNCHANGED <<val, sz, size, cap, evict, sized>>
@@ -138,13 +142,22 @@ Init ==
   /\ size = 0 /\ cap \in Nat /\ evict = 0 /\ sized \in BOOLEAN
 
 (* Vals, Sizes, Caps: Int, Nat, Nat for Apalache; the MC sets for TLC *)
+\* @type: (Set(Int), Set(Int)) => Bool;
+PutC(Vals, Sizes)   == \E k \in Keys : \E v \in Vals : \E s \in Sizes : Put(k, v, s)
+\* @type: (Set(Int), Set(Int)) => Bool;
+SetNXC(Vals, Sizes) == \E k \in Keys : \E v \in Vals : \E s \in Sizes : SetNX(k, v, s)
+\* @type: Set(Int) => Bool;
+SetCapC(Caps)       == \E c \in Caps : SetCap(c)
+StepRest   == (\E k \in Keys : Get(k) \/ Del(k)) \/ Clear \/ Same
 \* @type: (Set(Int), Set(Int), Set(Int)) => Bool;
-NextC(Vals, Sizes, Caps) ==
-  \/ \E k \in Keys : \E v \in Vals : \E s \in Sizes : Put(k, v, s) \/ SetNX(k, v, s)
-  \/ \E k \in Keys : Get(k) \/ Del(k)
-  \/ Clear \/ Same
-  \/ \E c \in Caps : SetCap(c)
-Next == NextC(Int, Nat, Nat)
+NextC(Vals, Sizes, Caps) == PutC(Vals, Sizes) \/ SetNXC(Vals, Sizes) \/ SetCapC(Caps) \/ StepRest
+
+(* Next, and its four parts: Apalache proves the step for each part in a run of its own     *)
+(* (5 min in all; as one run 13 min, the solver context grows with every transition).       *)
+StepPut    == PutC(Int, Nat)
+StepSetNX  == SetNXC(Int, Nat)
+StepSetCap == SetCapC(Nat)
+Next == StepPut \/ StepSetNX \/ StepSetCap \/ StepRest
 
 (* TLC only (LRU_Ind_MC.cfg): the constants of LRU_MC.cfg; evict is output only *)
 MCInit == cap \in {0, 1, 3} /\ Init
